@@ -24,6 +24,7 @@ RULE = ("snapshot: 12 writers x gulps {1,5,7,24,1000}; kill: 12 writers x gulp 5
         "for outputs at depths {1,2,4,8,16,32}; strace: writers under strace -f -y. Non-trivial = a crash/truncation point strictly inside the data section; "
         "distinct = distinct (writer, gulp, k) / (depth, length)")
 MAX_K = 14
+MAX_K_BATCHED = 34
 
 
 def REQUIRED(tier):
@@ -42,7 +43,7 @@ def cases(tier, seed):
             yield {"kind": "snapshot", "writer": w, "gulp": g}
         yield {"kind": "snapshot", "writer": w, "gulp": 5, "pre": True}   # re-run over an existing, longer output of the same name
     for w in c20_scen.WRITERS:
-        for k in range(MAX_K):
+        for k in range(MAX_K_BATCHED if w.endswith("_b2") else MAX_K):
             yield {"kind": "kill", "writer": w, "gulp": 5, "k": k}
         for k in (0, 2, 4):
             yield {"kind": "kill", "writer": w, "gulp": 5, "k": k, "pre": True}
@@ -173,8 +174,14 @@ def _reference(ctx, writer, gulp):
     cache = ctx.notes.setdefault("_ref", {})
     if key not in cache:
         d = _newdir(ctx, "r")
-        outs = c20_scen.run_writer(writer, d, gulp)
-        cache[key] = {os.path.basename(p): open(p, "rb").read() for p in outs}
+        rec = {}
+        _hook["active"] = rec
+        try:
+            outs = c20_scen.run_writer(writer, d, gulp)
+        finally:
+            _hook["active"] = None
+        nwrites = sum(len(v) for k, v in rec.items() if k != "__not_at_eof__")
+        cache[key] = ({os.path.basename(p): open(p, "rb").read() for p in outs}, nwrites)
         shutil.rmtree(d, ignore_errors=True)
     return cache[key]
 
@@ -184,7 +191,10 @@ def _kill(case, ctx):
     from sigpyproc.timeseries import TimeSeries
 
     w, gulp, k = case["writer"], case["gulp"], case["k"]
-    ref = _reference(ctx, w, gulp)
+    ref, nwrites = _reference(ctx, w, gulp)
+    if k > nwrites:   # kill point beyond the last write: identical to k == nwrites (runs to completion), already covered
+        ctx.count("kill:points_beyond_last_write_not_spawned")
+        return
     d = _newdir(ctx, "k")
     ctx.evaluated(); ctx.count("kill_children")
     try:
